@@ -212,6 +212,15 @@ func checkC12Hist(raw json.RawMessage) (ev.Result, error) {
 			c12RestoreTables()
 			return res, fmt.Errorf("after step %d of %d (%s): %v", i+1, len(c.Ops), desc, err)
 		}
+		// lookups are deterministic: the empty name keeps meaning the architecture of this build, every alias its table
+		if info, err := arch.GetInfo(""); err != nil || info != spec.ArchInfo(hostArchName()) {
+			return res, fmt.Errorf("after step %d of %d (%s): GetInfo(\"\") no longer returns the table of the build's architecture (%v, %v)", i+1, len(c.Ops), desc, info, err)
+		}
+		for alias, table := range archAliases {
+			if info, err := arch.GetInfo(alias); err != nil || info != spec.ArchInfo(table) {
+				return res, fmt.Errorf("after step %d of %d (%s): GetInfo(%q) no longer returns the %s table", i+1, len(c.Ops), desc, alias, table)
+			}
+		}
 	}
 	if unknownSeen {
 		res.NonTrivial = true
